@@ -11,10 +11,22 @@ CLAIMED = {
                 "universes and the independent recursive specification (runs/followers) is executed against both.",
         "design_ref": "DESIGN.md section 4 C20",
         "note": "Model control flow is hand-written; tied by correspondence suites ADDREMOVE-*, KEYED*. "
-                "Equality model = recursive spec (C20_anchor) is checked by execution, theorem pending. "
+                "The recursive spec of C20_anchor (runs/followers) is also executed against the implementation. "
                 "Python dict/set/sorted semantics are modelled (insertion-ordered map, stable sort).",
         "technique": "Coq proof over executable model + exhaustive model/implementation correspondence",
     },
+}
+
+CLAIMED["C17"] = {
+    "text": "Theorems over a Gallina model of Context.linecol (line-end list, bisect_right as the documented "
+            "binary search on explicit fuel, column arithmetic): for every text and every offset up to its length "
+            "the search terminates, line = 1 + newlines before the offset, column = 1 + characters since the last "
+            "newline, and that pair addresses exactly offset p in the text split at newlines; positions are 1-based. "
+            "Tied to the code by exhaustive differential execution over {a, newline}* up to the tier bound.",
+    "design_ref": "DESIGN.md section 4 C17",
+    "note": "bisect.bisect and the regex \"\\n\" are modelled (binary search / scan) and tied by the LINECOL suite; "
+            "positions attached by the checkers (bounds clause) are covered by the checker properties' suites.",
+    "technique": "Coq proof over executable model + exhaustive model/implementation correspondence",
 }
 
 NOT_YET = {}
